@@ -403,6 +403,8 @@ func runC14(c *Ctx) {
 
 	// ---- C14.5
 	ruleLateResponsesIgnored(c, "C14.5")
+	// ---- C14.6: the releasing Refresh is fire-and-forget; it is retransmitted only if its timer is armed
+	ruleTransactionPairing(c, "C14.6")
 
 	// ---- C14.4
 	c.Rule("C14.4", "release on Close: in UDPConn.Close every path past the already-closed return, and in TCPAllocation.Close every path, ends by calling refreshAllocation(0, …) with the constant lifetime 0; in refreshAllocation every return of a nil error is preceded on all paths by the PerformTransaction call", 3)
